@@ -28,8 +28,9 @@ TagCfgs == {"default", "custom", "multi", "envtag"}
 \* twopkgs: two packages, each with a faulty converter (a directive fault in one, a signature fault in the other): which one is
 \* reported must not depend on the order of the package patterns; twomarkers: the same with a misplaced marker in each package;
 \* directive4: four variables of one goverter:variables block, each with an unknown setting (the variables are kept in a map);
+\* twobroken: two packages that do not compile; extendmissing: `goverter:extend NoSuch E` (the first name does not exist, the second does);
 \* conversion2: two methods of one converter, each with an unconvertible pair (the methods are built from a map)
-Faults == {"directive", "signature", "conversion", "unknown2", "enumkeys2", "fieldtargets2", "marker", "format", "ctxmissing3", "twopkgs", "twomarkers", "conversion2", "directive4"}
+Faults == {"directive", "signature", "conversion", "unknown2", "enumkeys2", "fieldtargets2", "marker", "format", "ctxmissing3", "twopkgs", "twomarkers", "conversion2", "directive4", "twobroken", "extendmissing"}
 GenVariants == {"root-dots", "flag-dots", "root-listed", "root-reversed", "root-dup"}
 Ops == {[op |-> "gen", v |-> x] : x \in GenVariants} \cup {[op |-> "edit"], [op |-> "break"], [op |-> "bloat"], [op |-> "scramble"], [op |-> "delete"], [op |-> "guard"]}
         \cup {[op |-> "bad", k |-> k] : k \in Faults} \cup {[op |-> "unbad"]}
